@@ -49,6 +49,8 @@ class Opts:
         self.p_partial = 0.25       # chance of NaN-like P fields where the trait set allows
         self.type_name = "Ty"
         self.names = None           # optional name provider (C19)
+        self.rich = False           # allow the rich generics flavour (two lifetimes, two type
+                                    # parameters, a const parameter, a user where-clause)
         self.__dict__.update(kw)
 
 
@@ -65,7 +67,7 @@ def random_type(rng, traits, opts=None):
     # -- generics flavour ------------------------------------------------------------------------
     flavour = "none"
     if o.generics:
-        flavour = rng.choice(["none", "none", "G", "G", "aG", "GN", "a"])
+        flavour = rng.choice(["none", "none", "G", "G", "aG", "GN", "a"] + (["rich"] * 4 if o.rich else []))
     want_copy = "Copy" in tset
     total_needed = bool(tset & {"Eq", "Ord", "Hash"}) or bool(derives & {"Eq", "PartialOrd", "PartialEq"})
     partial_ok = not total_needed and not want_copy and "Into" not in tset and \
@@ -75,8 +77,8 @@ def random_type(rng, traits, opts=None):
     if o.names:
         gname, ltname = o.names.type_param(rng), o.names.lifetime(rng)
     kinds = S.make_kinds(gname, garg, ltname)
-    has_g = flavour in ("G", "aG", "GN")
-    has_a = flavour in ("aG", "a")
+    has_g = flavour in ("G", "aG", "GN", "rich")
+    has_a = flavour in ("aG", "a", "rich")
     if has_a:
         td.params.append({"kind": "lt", "name": ltname, "arg": "'static"})
     if has_g:
@@ -84,7 +86,10 @@ def random_type(rng, traits, opts=None):
         if has_a:
             bounds.append(ltname)
         td.params.append({"kind": "ty", "name": gname, "bounds": bounds, "arg": RT + garg})
-    if flavour == "GN":
+    if flavour == "rich":
+        td.params.insert(1, {"kind": "lt", "name": "'b", "bounds": [ltname], "arg": "'static"})
+        td.params.append({"kind": "ty", "name": "K", "bounds": [RT + "Payload"], "arg": RT + garg})
+    if flavour in ("GN", "rich"):
         cname = o.names.const_param(rng) if o.names else "N"
         td.params.append({"kind": "const", "name": cname, "arg": "2"})
         td.notes["const"] = cname
@@ -188,7 +193,25 @@ def random_type(rng, traits, opts=None):
                 if p.get("bounds"):
                     p["bounds"] = [b for b in p["bounds"] if b != ltname]
             has_a = False
-    if flavour == "GN":
+    if flavour == "rich" and nonunit:
+        k2 = S.make_kinds("K", garg, "'b")
+        kk = rng.choice([k2["G"], k2["OptG"], k2["PhG"]])
+        if want_copy or derives:
+            kk = k2["PhG"] if rng.random() < 0.5 else k2["G"]
+        append_field(rng.choice(nonunit), kk)
+        if "Default" not in derives:
+            append_field(rng.choice(nonunit), k2["RefT"])
+        else:
+            td.params = [p for p in td.params if p["name"] != "'b"]
+        wpool = ["%s: %sPayload" % (gname, RT), "K: ::core::marker::Sized", "'b: %s" % ltname,
+                 "[%s; 2]: ::core::marker::Sized" % gname, "K: %s" % ltname,
+                 "%sT: ::core::clone::Clone" % RT]
+        if not any(p["name"] == "'b" for p in td.params):
+            wpool = [w for w in wpool if "'b" not in w]
+        td.where = rng.sample(wpool, rng.randint(0, 3))
+    elif flavour == "rich":
+        td.params = [p for p in td.params if p["name"] not in ("'b", "K")]
+    if flavour in ("GN", "rich"):
         # a const parameter must be used: give it to an array-typed filler field
         if nonunit:
             cn = td.notes["const"]
@@ -483,7 +506,7 @@ def delegated_types(td, trait):
                 continue
             out.append(f.ty)
             continue
-        if trait in ("Copy", "Eq"):
+        if trait in ("Copy", "Eq") or (trait == "Clone" and "Copy" in td.traits):
             out.append(f.ty)
             continue
         s = f.sem.get(key, {})
